@@ -6,7 +6,8 @@ TEXT = {
   "level": "Theorems C15_minimal, C15_mem, C15_stream, C15_reject_mem, C15_reject_stream, C15_agree_accept (coq/Properties/C15.v) hold for "
            "every value below 2^28, every suffix, every byte string and every reader schedule - no enumeration. The model's "
            "vbint encoder/decoders are run against the Go ones (hooks) on boundaries, stratified values and all short byte strings "
-           "(thorough: all 2^28 values, all strings <= 3 bytes) on every run.",
+           "(thorough: all 2^28 values, all strings <= 3 bytes) on every run. C15_encoder_is_the_source: the encoder the theorems speak about is the loop of vbint.fill "
+           "as it stands in the source - translated statement by statement on every run, the run of the statement list proved equal to the model's encoder for every value, buffer and position.",
   "note": NOTE,
   "technique": "Coq proof (div/mod-128 characterisation, lia) + Go-vs-extracted-model correspondence + exhaustive oracle",
  },
@@ -67,8 +68,10 @@ TEXT = {
            "C10_fill_positional: for every packet type, packet, buffer and position the positional run returns i + the frame length (nil and short buffers included), keeps the "
            "buffer's length and, when the frame fits, leaves exactly the frame at i and every other byte untouched; it panics only where the byte-list reading is undefined. "
            "C10_fill_program: the same for every IR program that never calls rawdata.fillProp. C10_dry_run, C10_two_pass: WriteTo as the code runs it = WriteTo of the byte-list model, "
-           "so the theorems of C01/C02/C10 speak about the two-pass code. Tied to the source by the regenerated encoder IR, and the positional wire fills by correspondence on "
-           "nil/short/exact/longer patterned buffers at several offsets (hooks VerifWireFillInto, VerifPacketFill).",
+           "so the theorems of C01/C02/C10 speak about the two-pass code. Tied to the source by the regenerated encoder IR of the packet types and, for the wire types, by "
+           "C10_wire_encoders_are_the_source: fill/fillProp/fillOpt/width of the nine wire types are translated statement by statement on every run (tools/gosync/wire.go), the "
+           "regenerated statement lists are the model's, and running them is - for every value, buffer and position - the per-type function of Model/Fill.v the theorems are stated on; "
+           "additionally by correspondence on nil/short/exact/longer patterned buffers at several offsets (hooks VerifWireFillInto, VerifPacketFill).",
   "note": NOTE,
   "technique": "Coq proof over the encoder IR (byte-list reading and positional two-pass reading proved equal) + correspondence with scripted writers and positional fills + every-k short-write oracle",
  },
